@@ -414,8 +414,11 @@ func (m *omMachine) invariants() error {
 	om := m.omField()
 	if !om.IsNil() {
 		r := call(om, "Len")
-		if r.panic != nil || int(r.out[0].Int()) != len(m.ents) {
-			return fmt.Errorf("Len() = %v (panic %v), model has %d entries", r.out, r.panic, len(m.ents))
+		if r.panic != nil {
+			return fmt.Errorf("Len panicked: %v", r.panic)
+		}
+		if int(r.out[0].Int()) != len(m.ents) {
+			return fmt.Errorf("Len() = %d, model has %d entries %s", r.out[0].Int(), len(m.ents), m.modelKeys())
 		}
 		if r = call(om, "Keys"); r.panic != nil {
 			return fmt.Errorf("Keys panicked: %v", r.panic)
@@ -437,13 +440,19 @@ func (m *omMachine) invariants() error {
 		}
 		if !om.IsNil() {
 			r := call(om, "Get", m.site.keyArgs(om, "Get", k)...)
-			if r.panic != nil || ptrOf(r.out[0]) != want {
-				return fmt.Errorf("Get(k%d) = %v (panic %v), want %#x", ci, r.out, r.panic, want)
+			if r.panic != nil {
+				return fmt.Errorf("Get(k%d) panicked: %v", ci, r.panic)
+			}
+			if ptrOf(r.out[0]) != want {
+				return fmt.Errorf("Get(k%d) = %#x, want %#x (0 = nil: key not in the model)", ci, ptrOf(r.out[0]), want)
 			}
 		}
 		r := call(m.parent, "Get"+f.Name, m.site.keyArgs(m.parent, "Get"+f.Name, k)...)
-		if r.panic != nil || ptrOf(r.out[0]) != want {
-			return fmt.Errorf("parent.Get%s(k%d) = %v (panic %v), want %#x", f.Name, ci, r.out, r.panic, want)
+		if r.panic != nil {
+			return fmt.Errorf("parent.Get%s(k%d) panicked: %v", f.Name, ci, r.panic)
+		}
+		if ptrOf(r.out[0]) != want {
+			return fmt.Errorf("parent.Get%s(k%d) = %#x, want %#x (0 = nil: key not in the model)", f.Name, ci, ptrOf(r.out[0]), want)
 		}
 	}
 	obs := model.Observe(m.site.v, m.parent.Interface().(ygot.GoStruct))
